@@ -342,3 +342,324 @@ def base_lemmas(o, MM, E, structural):
     mirlib.check_translator(o, ex, "compose_node")
     structural("Context::compose_node: one iteration appends to the new parent exactly the node of the child under the iterator - a fresh leaf for a token, "
                "a fresh empty tree for a bare kind, the child's own node otherwise - and the parent is what is returned", okn2 and ret_ok and kinds == {"Leaf", "Tree", "Node"})
+
+
+def check_loops(f, MM, E, L, o):
+    """Loop invariant of a list combinator (repeat, intersperse): at every loop head, for every live cursor carried by
+    the loop, the caller's list holds - after what it held on entry - nodes whose leaves are exactly the tokens between
+    the function's own cursor and that cursor. Every stretch of a path between two loop heads (or the entry, a back
+    edge, the return) must preserve it: z3 is asked whether the leaves of the nodes pushed in the stretch can differ
+    from the concatenation of the token segments along the cursor chain of the stretch. -> (stretches decided, problems)"""
+    S = L.smt
+    names = ["a%d" % i for i in range(len(f.args))]
+    ci = [i for i, (_, t) in enumerate(f.args) if t.strip().endswith("Cursor")][0]
+    names[ci] = "s"
+    vi = [i for i, (_, t) in enumerate(f.args) if re.search(r"&mut (std::vec::|alloc::vec::)?Vec<", t)]
+    if not vi:
+        return 0, ["%s: no list argument" % f.name]
+    own = ("sym", names[vi[0]])
+    CUR = ("sym", "s")
+    ex = mirlib.executor([MM])
+    ex.emulate_result_alternatives = True
+    ex.emulate_option_map = True
+    SeqT = z3.SeqSort(z3.IntSort())
+    empty = z3.Empty(SeqT)
+    problems, decided = [], 0
+    cursor_locals = [loc for loc, t in f.locals.items() if isinstance(loc, int) and t.strip().endswith("Cursor")]
+    outs = ex.run(f, arg_names=names)
+    mirlib.check_translator(o, ex, f.name + " (loops)")
+    for p in outs:
+        if p.kind not in ("return", "backedge"):
+            continue
+        if p.kind == "return" and p.ret[0] == "variant" and p.ret[2] == "Err":
+            touched = [e[1] for e in p.calls() if e[1] == "Vec::push" and (_items(e[2][0], own) or [None])[:1] == [("base",)]]
+            decided += 1
+            if touched:
+                problems.append("%s: a path that answers Err has appended to the caller's list" % f.name)
+            continue
+        ev = list(p.events)
+        marks = [i for i, e in enumerate(ev) if e[0] == "loop" and e[1] == f.short]
+        bounds = [-1] + marks + [len(ev)]
+        # a carried cursor is live at a loop head if it held a value there that is itself live (temporaries of the loop
+        # body are carried too, holding nothing on entry: the symbols that stand for them are dead)
+        dead = set()
+
+        def live_entry(mark):
+            entry = ev[mark][3] or {}
+            out = {}
+            for loc in cursor_locals:
+                nm = f.debug.get(loc)
+                sym = ("sym", "%s#loop%s_%d%s" % (f.short, ev[mark][2], loc, ("=" + nm) if nm else ""))
+                v = entry.get(loc)
+                if v is None or v in dead:
+                    dead.add(sym)
+                else:
+                    out[loc] = (v, sym)
+            return out
+        lives = {m: live_entry(m) for m in marks}
+        for k in range(len(bounds) - 1):
+            lo, hi = bounds[k], bounds[k + 1]
+            seg = [e for e in ev[lo + 1:hi] if e[0] == "call"]
+            # cursors the stretch starts from
+            if lo < 0:
+                starts = {CUR}
+            else:
+                starts = set(sym for v, sym in lives[lo].values())
+            # cursors the stretch ends in
+            ends = []
+            if hi < len(ev):
+                ends = [v for v, sym in lives[hi].values()]
+            elif p.kind == "return":
+                r = p.ret
+                c = r[3][0] if (r[0] == "variant" and r[2] == "Ok") else r
+                if c[0] == "aggr" and c[1] == "tuple":
+                    c = c[2][0]
+                ends = [c]
+            else:
+                hd = (p.info or {}).get("head")
+                mine = [m for m in marks if ev[m][2] == hd]
+                carried = lives[mine[-1]] if mine else {}
+                fr = [k2[0] for k2 in p.state.vals if isinstance(k2, tuple)][0] if p.state.vals else None
+                ends = [p.state.vals[(fr, loc)] for loc in carried if (fr, loc) in p.state.vals]
+            pushes = [e for e in seg if e[1] == "Vec::push" and (_items(e[2][0], own) or [None])[:1] == [("base",)]]
+            segs = {}
+
+            def g(e):
+                if id(e) not in segs:
+                    segs[id(e)] = z3.Const("g!%s!%d" % (re.sub(r"\W", "_", e[1])[-12:], len(segs)), SeqT)
+                return segs[id(e)]
+
+            def flat_args(e):
+                out = []
+                for a in e[2]:
+                    out += list(a[2]) if (a[0] == "aggr" and a[1] == "tuple") else [a]
+                return out
+
+            def producer(c):
+                for e in seg:
+                    if e[1] in ("Vec::push",) or e[1] in READONLY:
+                        continue
+                    if c == ms.proj(_okp(e[3], E), ("f", 0), E):
+                        return e
+                return None
+            for end in ends:
+                decided += 1
+                chain, c, why = [], end, None
+                for _ in range(40):
+                    if c in starts:
+                        break
+                    e = producer(c)
+                    if e is None:
+                        why = "the cursor %s is not reached from the cursor the stretch starts with through sub-parser calls" % ms.show(c)[:60]
+                        break
+                    ca = [a for a in flat_args(e) if a in starts or producer(a) is not None]
+                    if len(ca) != 1:
+                        why = "%s is called with %d cursors" % (e[1], len(ca))
+                        break
+                    chain.append(e)
+                    c = ca[0]
+                chain.reverse()
+                if why:
+                    problems.append("%s: %s" % (f.name, why))
+                    continue
+                consumed = z3.Concat(*([empty, empty] + [g(e) for e in chain]))
+                prod, unknown = [empty, empty], []
+                for pu in pushes:
+                    n = pu[2][1]
+                    src = [e for e in seg if e[1] != "Vec::push" and any(n == ms.proj(ms.proj(_okp(e[3], E), ("f", 0), E) if False else _okp(e[3], E), ("f", 1), E) for _ in (0,))]
+                    if len(src) == 1:
+                        prod.append(g(src[0]))
+                    else:
+                        unknown.append(ms.show(n)[:50])
+                if unknown:
+                    problems.append("%s: a pushed node does not come from a sub-parser of the same stretch: %s" % (f.name, unknown[0]))
+                    continue
+                ok = L.expect_unsat("%s: between two loop heads the nodes appended are the tokens the cursor moved over, in order [stretch %d]" % (f.name, decided),
+                                    S.pc(p.pc) + [z3.Concat(*prod) != consumed])
+                if not ok:
+                    problems.append("%s: in one stretch it consumes %s but appends %d nodes that do not have exactly their leaves in that order" % (
+                        f.name, " ".join(e[1].split("::")[-1] for e in chain) or "nothing", len(pushes)))
+    return decided, problems
+
+
+# ---------------------------------------------------------------------------------------------------------------
+# Termination of the parser (the induction above is well founded; "cannot hang" for C04)
+
+def _fnref(t):
+    """A function-valued argument -> ('fn', name) | ('closure', 'file:line:col') | ('param', name) | None"""
+    while t[0] == "addr":
+        t = t[1]
+    if t[0] == "sym":
+        return ("param", t[1])
+    txt = None
+    if t[0] == "aggr" and isinstance(t[1], str):
+        txt = t[1]
+    elif t[0] == "c" and isinstance(t[2], str):
+        txt = t[2]
+    if txt is None:
+        return None
+    m = re.search(r"\{closure@([^}]+?)(?::\s*\d+:\d+)?\}", txt)
+    if m:
+        return ("closure", re.match(r"(.*?:\d+:\d+)", m.group(1)).group(1) if re.match(r"(.*?:\d+:\d+)", m.group(1)) else m.group(1))
+    m = re.match(r"^(?:ZeroSized: )?(?:[A-Za-z_][\w]*::)*([A-Za-z_]\w*)(?:::<.*>)?(?: as .*)?$", txt.strip())
+    if m:
+        return ("fn", m.group(1))
+    return None
+
+
+def termination(MS, E, o, structural):
+    """No production can be entered again at the same cursor (no left recursion through any chain of calls, also through
+    function-valued parameters, which are resolved per call site), and every round of a list loop consumes a token."""
+    prods = productions(MS)
+    key = {f.name: (f.name.split("::")[-1] if "{closure" not in f.name else f.name) for f in prods}
+    by_name = {key[f.name]: f for f in prods}
+    by_loc = {}
+    for f in prods:
+        if "{closure" in f.name and f.args:
+            m = re.search(r"\{closure@([^}]+?:\d+:\d+)", f.args[0][1])
+            if m:
+                by_loc[m.group(1)] = key[f.name]
+    paths = {}
+    for f in prods:
+        names = ["a%d" % i for i in range(len(f.args))]
+        ci = [i for i, (_, t) in enumerate(f.args) if t.strip().endswith("Cursor")][0]
+        names[ci] = "s"
+        ex = mirlib.executor([MS])
+        ex.emulate_result_alternatives = True
+        outs = [p for p in ex.run(f, arg_names=names) if p.kind == "return"]
+        if ex.unknown:
+            o.inconc("termination: %s: untranslatable MIR (%s)" % (f.name, ex.unknown[0][:60]))
+        paths[key[f.name]] = (names, outs)
+    CUR = ("sym", "s")
+    unknown = set()
+    nullable = set()          # (production, frozenset of nullable function parameters) that may succeed on nothing
+    loops = []
+
+    def resolve(ref, env):
+        """-> list of (production name, its parameter environment) a function value stands for; [] for a token parser"""
+        if ref is None:
+            return None
+        if ref[0] == "fn":
+            if ref[1] in ("parse_token", "parse_token_with"):
+                return []
+            return [(ref[1], {})] if ref[1] in by_name else None
+        if ref[0] == "closure":
+            return [(by_loc[ref[1]], {})] if ref[1] in by_loc else None
+        if ref[0] == "param":
+            return env.get(ref[1])
+        return None
+
+    def is_nullable(targets):
+        return bool(targets) and any(walk(t, e)[0] for t, e in targets)
+
+    memo = {}
+    stack = []
+
+    def walk(me, env):
+        """-> (may succeed without consuming, {productions called at the own cursor})"""
+        k = (me, tuple(sorted((a, tuple(sorted(t for t, _ in v))) for a, v in env.items())))
+        if k in memo:
+            return memo[k]
+        if k in stack:
+            return (k in nullable, set())
+        stack.append(k)
+        names, outs = paths[me]
+        nul, first = False, set()
+        for p in outs:
+            calls = [e for e in p.calls() if e[1] not in ("Vec::push", "Context::compose", "Context::compose_node") and e[1] not in READONLY]
+            at_own = {CUR}
+            for e in calls:
+                ca = [a for a in e[2] if a in at_own]
+                short = e[1].split("::")[-1]
+                if short in ("parse_token", "parse_token_with"):
+                    continue
+                tg, n2 = None, False
+                if short == "memoize":
+                    tg = resolve(_fnref(e[2][-1]), env)
+                    n2 = is_nullable(tg) if ca else False
+                elif short == "repeat":
+                    arr = [x for x in ms.subterms(e[2][-1]) if x[0] == "aggr" and x[1] == "array"]
+                    elems = [resolve(_fnref(x), env) for x in (arr[0][2] if arr else ())]
+                    if not arr or any(x is None for x in elems):
+                        unknown.add("%s: repeat over an unknown list of parsers" % me)
+                        elems = [x for x in elems if x is not None]
+                    tg, pre = [], True
+                    for x in elems:
+                        if pre:
+                            tg += x
+                        pre = pre and is_nullable(x)
+                    n2 = True
+                    loops.append((me, "repeat", any(not is_nullable(x) for x in elems)))
+                elif short == "intersperse":
+                    pa, inf = resolve(_fnref(e[2][3]), env), resolve(_fnref(e[2][4]), env)
+                    if pa is None or inf is None:
+                        unknown.add("%s: intersperse over an unknown parser" % me)
+                    pa, inf = pa or [], inf or []
+                    pn = is_nullable(pa)
+                    tg = pa + (inf if pn else [])
+                    n2 = pn
+                    loops.append((me, "intersperse", (not pn) or not is_nullable(inf)))
+                elif short in by_name:
+                    g = by_name[short]
+                    env2 = {}
+                    for i2, a in enumerate(e[2]):
+                        if i2 < len(g.args) and ("fn(" in g.args[i2][1] or "ParserFn" in g.args[i2][1]):
+                            r = resolve(_fnref(a), env)
+                            if r is None:
+                                unknown.add("%s: passes an unknown function to %s" % (me, short))
+                                r = []
+                            env2["a%d" % i2] = r
+                    tg = [(short, env2)]
+                    n2 = is_nullable(tg) if ca else False
+                elif e[1] in names:                           # a call through a function-valued parameter
+                    tg = env.get(e[1])
+                    if tg is None:
+                        unknown.add("%s: calls the parameter %s, which no call site binds" % (me, e[1]))
+                        tg = []
+                    n2 = is_nullable(tg) if ca else False
+                elif ca:
+                    unknown.add("%s: %s is given the cursor but is not a known parser" % (me, e[1]))
+                    continue
+                else:
+                    continue
+                if ca:
+                    for t, e3 in tg or []:
+                        first.add(t)
+                        first.update(walk(t, e3)[1] if (t, e3) != (me, env) else ())
+                    if n2:
+                        at_own.update([e[3], _okp(e[3], E), ms.proj(_okp(e[3], E), ("f", 0), E)])
+            r = p.ret
+            if r[0] == "variant" and r[2] == "Ok":
+                pay = r[3][0]
+                cur = pay if pay in at_own else (pay[2][0] if pay[0] == "aggr" and pay[1] == "tuple" else ms.proj(pay, ("f", 0), E))
+                nul = nul or cur in at_own
+            elif r[0] != "variant":
+                nul = nul or r in at_own       # the answer of a sub-parser handed on: on nothing iff that sub-parser did
+        stack.pop()
+        if nul:
+            nullable.add(k)
+        memo[k] = (nul, first)
+        return memo[k]
+
+    reach = {}
+    for me in sorted(by_name):
+        if any(("fn(" in t or "ParserFn" in t) for _, t in by_name[me].args):
+            continue                  # analysed at its call sites, with the functions it is given
+        reach[me] = walk(me, {})
+    # a second pass after the memo table has settled (recursive productions see their final answers)
+    memo.clear()
+    del loops[:]
+    for me in sorted(reach):
+        reach[me] = walk(me, {})
+    self_reach = sorted(me for me, (nul, first) in reach.items() if me in first)
+    nullable_names = sorted(me for me, (nul, first) in reach.items() if nul)
+    o.extra["parser_termination"] = {"productions": len(prods), "may_succeed_without_consuming": nullable_names,
+                                     "first_call_edges": sum(len(v[1]) for v in reach.values()), "loops": sorted(set(loops))[:40]}
+    for u in sorted(unknown):
+        o.inconc("termination: " + u)
+    structural("parser: no production can be entered again before a token has been consumed (first-call closure of %d productions, function-valued parameters resolved per call site) - "
+               "recursion descends only with progress" % len(prods), not self_reach and sum(len(v[1]) for v in reach.values()) >= 40,
+               "parser: %s can be entered again at the same cursor (left recursion)" % self_reach[0] if self_reach else None)
+    badloops = [l for l in loops if not l[2]]
+    structural("parser: every round of a repeat / intersperse loop consumes at least one token (some element cannot succeed on nothing)", not badloops and len(set(loops)) >= 8,
+               "parser: a %s loop in %s can go round without consuming a token" % (badloops[0][1], badloops[0][0]) if badloops else None)
